@@ -9,6 +9,8 @@ CONSTANTS
   PMax = 6
   SplCfgs <- MCSplCfgs
   LamSeeds = {0, 1, 2, 3}
+  DecCfgs <- MCDec
+  BigTab <- MCBig
   Emit = TRUE
-INVARIANTS InvLJ VectorLJ InvSpl VectorSpl
+INVARIANTS InvLJ InvEdges InvTab VectorLJ InvSpl VectorSpl
 CHECK_DEADLOCK FALSE
